@@ -28,6 +28,7 @@ func genTenantHistory(r *rand.Rand, quick bool) *plan.Plan {
 	orgs := tenantOrgs[:2+r.IntN(2)]
 	p.Knobs.Orgs = append([]int64(nil), orgs...) // the node knows its organisations (start-up recovery runs per organisation)
 	counter := 0
+	aliased := map[int64][]string{} // per organisation: the indexes the alias was added to (generator's view)
 	queries := func() {
 		for _, org := range orgs {
 			exprs := tenantExprs
@@ -60,7 +61,18 @@ func genTenantHistory(r *rand.Rand, quick bool) *plan.Plan {
 		case x < 9:
 			org := orgs[r.IntN(len(orgs))]
 			inc.Ops = append(inc.Ops, plan.Op{Kind: "flush"})
-			inc.Ops = append(inc.Ops, plan.Op{Kind: "alias", Org: org, Index: tenantIndexes[r.IntN(len(tenantIndexes))], Name: "al", Args: map[string]any{"op": []string{"add", "add", "remove"}[r.IntN(3)]}})
+			what := []string{"add", "add", "remove"}[r.IntN(3)]
+			ix := tenantIndexes[r.IntN(len(tenantIndexes))]
+			if what == "remove" && len(aliased[org]) > 0 {
+				// mostly remove the alias from an index that holds it (afterwards the alias must stop naming that
+				// index at once, not only after a restart)
+				k := r.IntN(len(aliased[org]))
+				ix = aliased[org][k]
+				aliased[org] = append(aliased[org][:k], aliased[org][k+1:]...)
+			} else if what == "add" {
+				aliased[org] = append(aliased[org], ix)
+			}
+			inc.Ops = append(inc.Ops, plan.Op{Kind: "alias", Org: org, Index: ix, Name: "al", Args: map[string]any{"op": what}})
 			queries()
 		case x < 11:
 			org := orgs[r.IntN(len(orgs))]
